@@ -642,6 +642,23 @@ theorem intersection_of_sources (los his : List EVal) (x : EVal) :
     have : x ≤ EVal.pinf := by cases x <;> simp [EVal.le_def, EVal.le]
     simp [this]
 
+/-- **Only a Boolean variable has a default box**: `ModelicaMixin.bounds()[v]` contains `x` iff `x`
+    respects the user's pair when there is one, the box `(0, 1)` when there is none and `v` is
+    declared `Boolean`, nothing at all otherwise — and, in every case, the declared `min` / `max`.
+    In particular an `Integer` variable without a user entry gets exactly its declared `(min, max)`
+    (`(-inf, inf)` when none is declared). -/
+theorem modelica_box_is_declared_sources (isBoolean : Bool) (user : Option (EVal × EVal)) (mn mx x : EVal) :
+    ((modelicaBox isBoolean user mn mx).1 ≤ x ∧ x ≤ (modelicaBox isBoolean user mn mx).2 ↔
+      ((user.getD (defaultBox isBoolean)).1 ≤ x ∧ x ≤ (user.getD (defaultBox isBoolean)).2) ∧ mn ≤ x ∧ x ≤ mx) ∧
+    modelicaBox false none mn mx = (mn, mx) := by
+  constructor
+  · simp only [modelicaBox, EVal.max_eq, EVal.min_eq, max_le_iff, le_min_iff]
+    tauto
+  · simp only [modelicaBox, defaultBox, Option.getD_none, EVal.max_eq, EVal.min_eq]
+    have h1 : max EVal.ninf mn = mn := max_eq_right (by simp [EVal.le_def, EVal.le])
+    have h2 : min EVal.pinf mx = mx := min_eq_right (by cases mx <;> simp [EVal.le_def, EVal.le])
+    simp [h1, h2]
+
 /-! ## link to C19 -/
 
 /-- **A finite-valued Timeseries bound is interpolated by the C19 interpolant**: the extended
@@ -852,6 +869,13 @@ example : L.derNominalK (exI.states.getD 0 (initDerBlk 0)) (some (histEndingAt [
 
 -- bounds()["negative_alias"] = (-2, 0) with negative_alias = -x: x is boxed by [0, 2]
 example : aliasSides true (.sc (.fin (-2))) (.sc (.fin 0)) = (.sc (.fin 0), .sc (.fin 2)) := by decide +kernel
+
+-- Integer n(min=0, max=5) without a user entry: (0, 5), not the Boolean box; Boolean b: (0, 1);
+-- Integer k(min=2, max=4): (2, 4), a non-empty box
+example : modelicaBox false none (.fin 0) (.fin 5) = (.fin 0, .fin 5) ∧
+    modelicaBox true none .ninf .pinf = (.fin 0, .fin 1) ∧
+    modelicaBox false none (.fin 2) (.fin 4) = (.fin 2, .fin 4) ∧
+    modelicaBox true (some (.fin 0, .fin 0)) .ninf (.fin 1) = (.fin 0, .fin 0) := by decide +kernel
 
 -- shared control, two members with different histories: member 0 says u(t0) = 3, member 1 says 1/2;
 -- the returned vectors hold member 1's value (1/2)/2 = 1/4; with member 1's value NaN, member 0's 3/2
